@@ -241,6 +241,11 @@ func (w *World) onReady(n *node, rd *raft.Ready, hs *pb.HardState, ents []*pb.En
 		n.expTerm, n.expVote, n.expCommit = hs.GetTerm(), hs.GetVote(), hs.GetCommit()
 		n.hsExposed++
 		w.Stats["hardstates-exposed"]++
+		if n.hsExposed == 3 {
+			w.sample("C07", func() any {
+				return map[string]any{"node": n.id, "incarnation": n.inc, "third_exposed_hard_state": map[string]uint64{"term": hs.GetTerm(), "vote": hs.GetVote(), "commit": hs.GetCommit()}, "durable_at_start_term": n.startTerm}
+			})
+		}
 	}
 	// MustSync must be set when entries, term or vote are to be written (C05 mechanism)
 	if !n.cfg.Async {
@@ -284,6 +289,11 @@ func (w *World) onReady(n *node, rd *raft.Ready, hs *pb.HardState, ents []*pb.En
 			}
 		}
 		w.Stats["apply-batches"]++
+		if len(committed) > 1 || n.inc > 1 {
+			w.sample("C08", func() any {
+				return map[string]any{"node": n.id, "incarnation": n.inc, "batch": []uint64{committed[0].GetIndex(), committed[len(committed)-1].GetIndex()}, "bytes": sz, "max_committed_size": n.cfg.MaxCommittedSize, "commit": n.st.Commit, "async": n.cfg.Async}
+			})
+		}
 	}
 	if !raft.IsEmptySnap(snap) {
 		n.snapOutstanding = true
@@ -420,6 +430,9 @@ func (w *World) onHandedOut(n *node, e *pb.Entry) {
 		w.Stats["deliveries-compared"]++
 		if old.who != ge.who {
 			w.Stats["deliveries-cross-witness"]++
+			w.sample("C01", func() any {
+				return map[string]any{"index": idx, "term": ge.term, "type": ge.typ.String(), "handed_to": []string{old.who, ge.who}, "identical": old.term == ge.term && old.dh == ge.dh}
+			})
 		}
 	} else {
 		m.delivered[idx] = ge
@@ -483,6 +496,9 @@ func (w *World) onConfApplied(n *node, idx uint64, cs *pb.ConfState, next model.
 	}
 	m.confG[idx] = d
 	w.Stats["conf-"+confShape(got)]++
+	w.sample("C10", func() any {
+		return map[string]any{"node": n.id, "index": idx, "ApplyConfChange_returned": got.String(), "fold_of_committed_changes": next.String()}
+	})
 	// documented liveness exception: a voter leaves a two-voter set
 	if !boot {
 		_, prev := n.disk.mconfLookup(idx - 1)
@@ -546,6 +562,9 @@ func (w *World) onReadState(n *node, rs raft.ReadState) {
 		w.violate("C11", nil, "stale read: context %q got index %d < commit index %d that some node had when it was issued (node %d)", ctx, rs.Index, r.maxCommit, n.id)
 	}
 	w.Stats["reads-served"]++
+	w.sample("C11", func() any {
+		return map[string]any{"ctx": ctx, "issued_at_node": r.node, "read_index": rs.Index, "max_commit_when_issued": r.maxCommit, "node_role": n.st.Role.String()}
+	})
 	if !r.served && r.inc == n.inc {
 		r.served = true
 		// Get: completes when this node's applied index reaches the read index
@@ -743,6 +762,11 @@ func (w *World) wireMon(n *node, msg *pb.Message, meta *msgMeta) {
 	case pb.MsgAppResp:
 		if !msg.GetReject() && meta.inc == n.inc {
 			w.Stats["acks-on-wire"]++
+			if n.cfg.Async {
+				w.sample("C05", func() any {
+					return map[string]any{"message": "MsgAppResp", "from": n.id, "to": msg.GetTo(), "index": msg.GetIndex(), "term": msg.GetTerm(), "sender_durable_last": d.lastIndex(), "sender_durable_term": dterm, "queued_appends": len(n.appQ), "interface": "async"}
+				})
+			}
 			ok := dterm > msg.GetTerm() || d.SnapIndex >= msg.GetIndex()
 			if !ok {
 				if dc, has := d.chainAt(msg.GetIndex()); has {
@@ -976,6 +1000,15 @@ func (w *World) monCommit(n *node, kind string, in *pb.Message, pre, post *raft.
 			w.violate("C06", []string{"C01", "C05"}, "leader %d (term %d) advanced its commit index %d->%d but entry %d is durable only on %v; configuration %s (%s)", n.id, post.Term, pre.Commit, c, c, who, confOf(post.Conf), kind)
 		}
 		w.Stats["leader-commit-advances"]++
+		w.sample("C06", func() any {
+			var who []uint64
+			for _, id := range w.ids {
+				if w.diskHolds(id, c, e.Chain) {
+					who = append(who, id)
+				}
+			}
+			return map[string]any{"leader": n.id, "term": post.Term, "commit_from": pre.Commit, "commit_to": c, "entry_term": e.Term, "durable_on": who, "config": confOf(post.Conf).String(), "call": kind}
+		})
 		if len(post.Conf.GetVotersOutgoing()) > 0 {
 			w.Stats["leader-commit-advances-joint"]++
 		}
@@ -1142,6 +1175,23 @@ func (w *World) monElection(n *node, kind string, in *pb.Message, pre, post *raf
 			w.violate("C02", []string{"C05", "C10"}, "node %d became leader of term %d with grants from %v (own vote durable: %v), configuration %s (%s)", n.id, post.Term, gs, g[n.id], confOf(post.Conf), kind)
 		}
 		w.Stats["elections-won"]++
+		w.sample("C02", func() any {
+			var gs []uint64
+			for v := range g {
+				gs = append(gs, v)
+			}
+			sort.Slice(gs, func(i, j int) bool { return gs[i] < gs[j] })
+			return map[string]any{"term": post.Term, "winner": fmt.Sprintf("%d#%d", n.id, n.inc), "grants_delivered_incl_own_durable_vote": gs, "config": confOf(post.Conf).String(), "last": []uint64{post.LastIndex, post.LastTerm}}
+		})
+		w.sample("C04", func() any {
+			var need uint64
+			for ct, mx := range m.maxByCterm {
+				if ct < post.Term && mx > need {
+					need = mx
+				}
+			}
+			return map[string]any{"new_leader": fmt.Sprintf("%d#%d", n.id, n.inc), "term": post.Term, "leader_last_index": post.LastIndex, "highest_index_committed_in_earlier_terms": need, "committed_log_length": m.gLen}
+		})
 		if len(post.Conf.GetVotersOutgoing()) > 0 {
 			w.Stats["elections-won-joint"]++
 		}
@@ -1240,6 +1290,9 @@ func (w *World) monElection(n *node, kind string, in *pb.Message, pre, post *raf
 			w.Stats["inlease-counter-behind"]++
 		} else {
 			w.Stats["inlease-requests"]++
+			w.sample("C17", func() any {
+				return map[string]any{"node": n.id, "request": in.GetType().String(), "from": in.GetFrom(), "request_term": in.GetTerm(), "own_term": pre.Term, "leader": pre.Lead, "ticks_since_leader_heard": n.ticksSinceLeader, "election_tick": E, "term_after": post.Term, "vote_after": post.Vote}
+			})
 			if post.Term != pre.Term || post.Vote != pre.Vote {
 				w.violate("C17", nil, "CheckQuorum node %d, %d ticks after hearing from leader %d, changed term/vote on %s: %d/%d -> %d/%d", n.id, n.ticksSinceLeader, pre.Lead, in.GetType(), pre.Term, pre.Vote, post.Term, post.Vote)
 			}
